@@ -23,7 +23,7 @@ RULE = ("cases = entry-point pairs that must agree x walker type x sampler shape
 MIN_NONTRIVIAL = {"quick": 10, "thorough": 60}
 TIMEOUT = {"quick": 3000, "thorough": 12000}
 ASSUMPTIONS = ["converged SCF trial for comparisons that involve orbital relaxation", "single-process runs (no MPI)"]
-REQUIRED_COUNTERS = {"entry_calls": 20, "estimator_checks": 4, "capped_real": 1, "capped_imag": 1}
+REQUIRED_COUNTERS = {"entry_calls": 20, "estimator_checks": 4, "capped_real": 1, "capped_imag": 1, "reordering_reconfigurations": 4}
 ENTRIES = ("plain", "ad", "ad_nosr", "ad_norot", "ad_nosr_norot")
 
 
@@ -102,6 +102,7 @@ def call_entry(entry, smp, S, pd):
 
 
 def run_equal(case):
+    import jax.numpy as jnp
     from jax import random
 
     from ad_afqmc import sampling
@@ -109,9 +110,12 @@ def run_equal(case):
     rng = np.random.default_rng(case["s"])
     nw = 8
     S = build(case["wt"], rng, nw, case["dt"], case["n_batch"])
-    w0 = afqmc.noisy_walkers(rng, S, nw, noise=0.15, walker_type=case["wt"])
+    from ad_afqmc import config
+
+    w0 = afqmc.noisy_walkers(rng, S, nw, noise=0.5, walker_type=case["wt"])
     smp = sampling.sampler(n_prop_steps=case["shape"][0], n_ene_blocks=case["shape"][1], n_sr_blocks=case["shape"][2], n_blocks=1)
     events = []
+    reordered = [False]
     key = "C12/equal/%s=%s/%s" % (case["a"], case["b"], case["wt"])
     res = {}
     cnt = {"entry_calls": 0}
@@ -119,13 +123,24 @@ def run_equal(case):
     for entry in (case["a"], case["b"]):
         pd = S["prop"].init_prop_data(S["trial"], S["wave_data"], S["ham_data"], w0)
         pd["key"] = random.PRNGKey(case["s"] % 65521)
+        # a population in the middle of a run: unequal weights, so that the driver's reconfiguration really duplicates / drops walkers
+        pd["weights"] = jnp.array(np.random.default_rng(case["s"] + 3).uniform(0.1, 3.0, size=nw))
         es = []
         try:
-            for call in range(2):
+            for call in range(3):
                 e, pd = call_entry(entry, smp, S, pd)
                 es.append(float(e))
                 cnt["entry_calls"] += 1
+                # what the driver does between sampler calls: QR, global reconfiguration, estimate update (no overlap refresh)
+                before = afqmc.np_walkers(pd["walkers"])
                 pd = S["prop"].orthonormalize_walkers(pd)
+                pd = S["prop"].stochastic_reconfiguration_global(pd, config.not_a_comm())
+                pd["e_estimate"] = 0.9 * pd["e_estimate"] + 0.1 * float(e)
+                after = afqmc.np_walkers(pd["walkers"])
+                b0 = before if not isinstance(before, list) else before[0]
+                a0 = after if not isinstance(after, list) else after[0]
+                if len({tuple(np.round(x.ravel()[:3], 10)) for x in a0}) < a0.shape[0]:
+                    reordered[0] = True
         except Exception as exc:
             events.append(ev("entry/callable", False, key="C12/callable/%s/%s" % (entry, case["wt"]), exc=repr(exc)[:300]))
             return {"events": events, "nontrivial": True, "counters": cnt}
@@ -135,12 +150,14 @@ def run_equal(case):
     ea, eb = res[case["a"]][0], res[case["b"]][0]
     # the first call always has the same pre-history; later calls too when both entry points reconfigure identically
     same_state = not (case["a"] == "plain" and case["b"] == "ad_nosr")
-    n_cmp = 2 if same_state else 1
+    n_cmp = 3 if same_state else 1
+    cnt["reordering_reconfigurations"] = int(reordered[0])
     d = max(abs(x - y) / max(1.0, abs(x)) for x, y in zip(ea[:n_cmp], eb[:n_cmp]))
     events.append(judge("equal/energies", d, 1e-10, key + "/energy", a=ea, b=eb))
     if same_state:
         events.append(judge("equal/weights", float(np.max(np.abs(res[case["a"]][1] - res[case["b"]][1]))), 1e-10, key + "/weights"))
-    return {"events": events, "nontrivial": nontriv, "sample": {"pair": [case["a"], case["b"]], "wt": case["wt"], "energies_a": ea, "energies_b": eb}, "counters": cnt}
+    return {"events": events, "nontrivial": nontriv, "sample": {"pair": [case["a"], case["b"]], "wt": case["wt"], "energies_a": ea, "energies_b": eb,
+                                                            "reconfiguration_duplicated_a_walker": reordered[0]}, "counters": cnt}
 
 
 def _engineered_population(case, S, smp, rng, nw, key0):
